@@ -165,8 +165,8 @@ def gen_lines(g):
         for ln in out:
             if ln[0] == "p":
                 ln[2] = ln[2].encode("ascii", "ignore").decode() or "/data/q1"
-                if ln[2].count("/") < 2 or "//" in ln[2] or ln[2].endswith("/"):
-                    ln[2] = "/data/q1"
+                if ln[2].count("/") < 2 or "//" in ln[2] or ln[2].endswith("/") or not GRAMMAR_PATH.match(ln[2]):
+                    ln[2] = "/data/q1"      # (a step whose name was all non-ASCII is left as a bare position: no path any more)
         out.insert(g.integer(0, len(out)), ["b", (b"Ung" + bytes([g.pick([0x81, 0x8d, 0x8f, 0x90, 0x9d, 0xfc, 0xe9])]) + b"ltig " + g.pick(WORDS[:8]).encode("ascii")).hex()])
     if g.p("_", 0.3):
         # validators often start with an 'Error: ' line; only the jar launcher's own 'Unable to access jarfile' text is passed through as is
@@ -175,8 +175,8 @@ def gen_lines(g):
         for ln in out:
             if ln[0] == "p":
                 ln[2] = ln[2].encode("ascii", "ignore").decode() or "/data/q1"
-                if ln[2].count("/") < 2 or "//" in ln[2] or ln[2].endswith("/"):
-                    ln[2] = "/data/q1"
+                if ln[2].count("/") < 2 or "//" in ln[2] or ln[2].endswith("/") or not GRAMMAR_PATH.match(ln[2]):
+                    ln[2] = "/data/q1"      # (a step whose name was all non-ASCII is left as a bare position: no path any more)
     return out
 
 
